@@ -148,9 +148,15 @@ type snapshot struct {
 // scenarios
 
 type step struct {
-	Kind string  `json:"kind"` // h2d, kernel, d2h (enqueue + drain + compare), drain
+	Kind string  `json:"kind"` // h2d, kernel, d2d, d2h (enqueue + drain + compare), drain
 	Op   kern.Op `json:"op"`
 	C    uint32  `json:"c"`
+	// layout scenarios (layout.go): the command acts on elements
+	// [Off, Off+Len) of the queue's buffer; Len == 0 = the whole buffer.
+	// d2d copies [Src, Src+Len) to [Off, Off+Len) (disjoint ranges).
+	Off int `json:"off,omitempty"`
+	Len int `json:"len,omitempty"`
+	Src int `json:"src,omitempty"`
 }
 
 type queuePlan struct {
@@ -160,6 +166,9 @@ type queuePlan struct {
 	Blocking bool   `json:"blocking"`
 	Steps    []step `json:"steps"`
 	SharedCO bool   `json:"shared_code_object"`
+	// layout scenarios: how the buffer is sized and placed (nil = one
+	// AllocateMemory of 4*N bytes on GPU, physically contiguous)
+	Lay *bufLayout `json:"layout,omitempty"`
 }
 
 type scenario struct {
@@ -168,6 +177,8 @@ type scenario struct {
 	Queues    []queuePlan `json:"queues"`
 	TwoDrain  bool        `json:"two_goroutines_drain_same_queue"`
 	SharedPID bool        `json:"contexts_share_pid"`
+	// layout scenarios: allocation order, bystander context, churn (layout.go)
+	Layout *layoutPlan `json:"layout_plan,omitempty"`
 }
 
 func genScenario(r *vlib.PRNG, id string, ngpu int, timing bool) scenario {
@@ -214,11 +225,14 @@ type childState struct {
 	d      *driver.Driver
 	active atomic.Int64 // application goroutines currently inside the scenario
 
-	waitMu   sync.Mutex
-	waitingQ map[int]*driver.CommandQueue // goroutine slot -> queue being drained
+	waitMu     sync.Mutex
+	waitingQ   map[int]*driver.CommandQueue // goroutine slot -> queue being drained
+	blockedAPI map[int]bool                 // goroutine slot -> inside a blocking API call of a scenario (queue not visible)
 
 	sharedCO [3]*insts.KernelCodeObject
 	twoDrain bool
+	lay      *layoutState // layout scenarios: page census and shape counters of the current scenario
+	runs     []*queueRun
 	cur      any // scenario being executed (for witnesses)
 }
 
@@ -277,15 +291,23 @@ func (cs *childState) watch(stop chan struct{}) {
 				nonEmpty++
 			}
 		}
+		unseen := len(cs.blockedAPI)
 		cs.waitMu.Unlock()
 		key := "C12|lost-wakeup|drain-check-then-wait"
 		what := "deadlock: every application goroutine is blocked in Listener.Wait although its queue is empty (notification lost between the emptiness check and Wait); engine goroutine gone, runAsync idle"
 		if nonEmpty > 0 {
 			key = "C12|stranded-kick|engine-exit-vs-runAsync"
 			what = "deadlock: commands are pending, runAsync is idle and no engine goroutine exists (a kick was issued while engineRunning was still set although Engine.Run had returned)"
+		} else if empty == 0 && unseen > 0 {
+			// every waiter sits in a blocking API call of a scenario: its queue
+			// is private to the driver, so "notification lost" and "the command
+			// never completes although the engine has nothing left to do"
+			// cannot be told apart from here
+			key = "C12|deadlock|blocking-call-never-returns"
+			what = "deadlock: every application goroutine is inside a blocking driver call (MemCopy* / LaunchKernel) waiting in Listener.Wait, the engine goroutine is gone and runAsync is idle: either the wake-up was lost or a command never completes although no event is left"
 		}
 		cs.rec.Violation(key, what, map[string]any{"scenario": cs.cur, "goroutines": string(stk), "yield_counters": a.c, "waiters_on_empty_queue": empty, "waiters_on_nonempty_queue": nonEmpty,
-			"mode": cs.mon.mode})
+			"waiters_in_blocking_api_calls": unseen, "mode": cs.mon.mode})
 		cs.rec.Note("verdict", "deadlock")
 		os.Exit(3)
 	}
@@ -361,8 +383,11 @@ type queueRun struct {
 	next   int
 	serial uint32
 	hist   []string
-	base   []uint32 // contents written by the last H2D
-	ops    []step   // kernels since the last H2D
+	base   []uint32 // contents written by the last whole-buffer H2D
+	ops    []step   // whole-buffer kernels since then
+	// layout scenarios
+	partial bool     // a command acted on a sub-range: base/ops no longer describe every element
+	frames  []uint64 // physical address of each page of buf
 }
 
 // explainByDroppedKernels reports whether got equals base with the kernels
@@ -417,58 +442,93 @@ func (cs *childState) runStep(slot int, sc *scenario, qi int, qr *queueRun, r *v
 	qr.next++
 	d := cs.d
 	n := qr.plan.N
+	// the element range the command acts on (classic scenarios: everything)
+	off, ln := 0, n
+	if st.Len > 0 {
+		off, ln = st.Off, st.Len
+	}
+	whole := off == 0 && ln == n
+	at := func(elem int) driver.Ptr { return qr.buf + driver.Ptr(4*elem) }
+	rangeTag := ""
+	if !whole {
+		rangeTag = fmt.Sprintf("[%d+%d]", off, ln)
+	}
 	switch st.Kind {
 	case "h2d":
-		host := make([]uint32, n)
+		host := make([]uint32, ln)
 		qr.serial++
 		for i := range host {
-			host[i] = uint32(qi)<<24 | qr.serial<<12 | uint32(i)
+			host[i] = uint32(qi)<<24 | qr.serial<<12 | uint32(off+i)
 		}
+		cs.noteCopy(qr, "h2d", off, ln)
 		if qr.plan.Blocking {
-			cs.waitSlot(slot, nil)
-			d.MemCopyH2D(qr.ctx, qr.buf, host)
+			cs.blocking(slot, func() { d.MemCopyH2D(qr.ctx, at(off), host) })
 		} else {
-			d.EnqueueMemCopyH2D(qr.q, qr.buf, host)
+			d.EnqueueMemCopyH2D(qr.q, at(off), host)
 		}
-		copy(qr.exp, host)
-		qr.base = append(qr.base[:0], host...)
-		qr.ops = qr.ops[:0]
-		qr.hist = append(qr.hist, fmt.Sprintf("h2d#%d", qr.serial))
+		copy(qr.exp[off:off+ln], host)
+		if whole {
+			qr.base = append(qr.base[:0], host...)
+			qr.ops = qr.ops[:0]
+		} else {
+			qr.partial = true
+		}
+		qr.hist = append(qr.hist, fmt.Sprintf("h2d#%d%s", qr.serial, rangeTag))
 	case "kernel":
-		args := kern.ElemArgs{Buf: qr.buf, C: st.C}
+		args := kern.ElemArgs{Buf: at(off), C: st.C}
 		co := cs.coFor(st.Op, qr.plan.SharedCO)
+		cs.noteKernel(qr, off, ln)
 		if qr.plan.Blocking {
-			d.LaunchKernel(qr.ctx, co, [3]uint32{uint32(n), 1, 1}, [3]uint16{64, 1, 1}, &args)
+			cs.blocking(slot, func() { d.LaunchKernel(qr.ctx, co, [3]uint32{uint32(ln), 1, 1}, [3]uint16{64, 1, 1}, &args) })
 		} else {
-			d.EnqueueLaunchKernel(qr.q, co, [3]uint32{uint32(n), 1, 1}, [3]uint16{64, 1, 1}, &args)
+			d.EnqueueLaunchKernel(qr.q, co, [3]uint32{uint32(ln), 1, 1}, [3]uint16{64, 1, 1}, &args)
 		}
-		for i := range qr.exp {
+		for i := off; i < off+ln; i++ {
 			qr.exp[i] = st.Op.Apply(qr.exp[i], st.C)
 		}
-		qr.ops = append(qr.ops, st)
-		qr.hist = append(qr.hist, fmt.Sprintf("%v(%d)", st.Op, st.C))
+		if whole {
+			qr.ops = append(qr.ops, st)
+		} else {
+			qr.partial = true
+		}
+		qr.hist = append(qr.hist, fmt.Sprintf("%v(%d)%s", st.Op, st.C, rangeTag))
+	case "d2d":
+		// the driver's copy kernel, inside the queue's own buffer
+		cs.noteKernel(qr, off, ln)
+		cs.noteKernel(qr, st.Src, ln)
+		if qr.plan.Blocking {
+			cs.blocking(slot, func() { d.MemCopyD2D(qr.ctx, at(off), at(st.Src), 4*ln) })
+		} else {
+			d.EnqueueMemCopyD2D(qr.q, at(off), at(st.Src), 4*ln)
+		}
+		copy(qr.exp[off:off+ln], qr.exp[st.Src:st.Src+ln])
+		qr.partial = true
+		qr.hist = append(qr.hist, fmt.Sprintf("d2d[%d+%d<-%d]", off, ln, st.Src))
 	case "drain":
 		if !qr.plan.Blocking {
 			cs.drain(slot, qr.q)
 		}
 	case "d2h":
-		got := make([]uint32, n)
+		got := make([]uint32, ln)
 		gl := make([]uint32, 16)
 		gr := make([]uint32, 16)
+		cs.noteCopy(qr, "d2h", off, ln)
 		if qr.plan.Blocking {
-			d.MemCopyD2H(qr.ctx, got, qr.buf)
-			d.MemCopyD2H(qr.ctx, gl, qr.guardL)
-			d.MemCopyD2H(qr.ctx, gr, qr.guardR)
+			cs.blocking(slot, func() {
+				d.MemCopyD2H(qr.ctx, got, at(off))
+				d.MemCopyD2H(qr.ctx, gl, qr.guardL)
+				d.MemCopyD2H(qr.ctx, gr, qr.guardR)
+			})
 		} else {
-			d.EnqueueMemCopyD2H(qr.q, got, qr.buf)
+			d.EnqueueMemCopyD2H(qr.q, got, at(off))
 			d.EnqueueMemCopyD2H(qr.q, gl, qr.guardL)
 			d.EnqueueMemCopyD2H(qr.q, gr, qr.guardR)
 			cs.drain(slot, qr.q)
 		}
 		cs.rec.Count("commands_checked", int64(len(qr.hist)))
 		for i := range got {
-			if got[i] != qr.exp[i] {
-				if cs.p.Cfg.Timing {
+			if got[i] != qr.exp[off+i] {
+				if cs.p.Cfg.Timing && !qr.partial {
 					if dropped, ok := explainByDroppedKernels(qr.base[i], qr.ops, got[i]); ok {
 						// Known defect of the timing platform (shared with C02 /
 						// C01): the L1 vector caches are not invalidated at
@@ -482,16 +542,16 @@ func (cs *childState) runStep(slot int, sc *scenario, qi int, qr *queueRun, r *v
 					}
 				}
 				cs.rec.Violation("C12|order-or-visibility|"+platClass(cs.p.Cfg),
-					fmt.Sprintf("queue %d element %d: read back 0x%08x, commands applied in submission order give 0x%08x (history %v)", qi, i, got[i], qr.exp[i], tailOf(qr.hist, 12)),
-					map[string]any{"scenario": sc, "queue": qi, "element": i, "history": qr.hist, "platform": cs.p.Cfg})
+					fmt.Sprintf("queue %d element %d: read back 0x%08x, commands applied in submission order give 0x%08x (history %v)%s", qi, off+i, got[i], qr.exp[off+i], tailOf(qr.hist, 12), cs.describeElem(qr, off+i, got[i])),
+					map[string]any{"scenario": sc, "queue": qi, "element": off + i, "read_range": [2]int{off, ln}, "history": qr.hist, "platform": cs.p.Cfg, "frames": qr.frames})
 				return false
 			}
 		}
 		for i := range gl {
 			if gl[i] != 0xA5A50000|uint32(qi) || gr[i] != 0x5A5A0000|uint32(qi) {
 				cs.rec.Violation("C12|isolation|guard-disturbed|"+platClass(cs.p.Cfg),
-					fmt.Sprintf("queue %d: a guard buffer next to its data buffer changed (0x%08x / 0x%08x)", qi, gl[i], gr[i]),
-					map[string]any{"scenario": sc, "queue": qi, "platform": cs.p.Cfg})
+					fmt.Sprintf("queue %d: a guard buffer of the queue changed (0x%08x / 0x%08x)", qi, gl[i], gr[i]),
+					map[string]any{"scenario": sc, "queue": qi, "platform": cs.p.Cfg, "history": qr.hist})
 				return false
 			}
 		}
@@ -501,7 +561,19 @@ func (cs *childState) runStep(slot int, sc *scenario, qi int, qr *queueRun, r *v
 	return true
 }
 
-func (cs *childState) waitSlot(int, *driver.CommandQueue) {}
+// blocking runs a blocking driver call (MemCopy*, LaunchKernel: a queue of
+// their own, created inside the driver and invisible here) and remembers for
+// the deadlock report that this goroutine waits on a queue the harness cannot
+// inspect.
+func (cs *childState) blocking(slot int, call func()) {
+	cs.waitMu.Lock()
+	cs.blockedAPI[slot] = true
+	cs.waitMu.Unlock()
+	call()
+	cs.waitMu.Lock()
+	delete(cs.blockedAPI, slot)
+	cs.waitMu.Unlock()
+}
 
 func tailOf(h []string, n int) []string {
 	if len(h) > n {
@@ -511,6 +583,9 @@ func tailOf(h []string, n int) []string {
 }
 
 func platClass(c plat.Config) string {
+	if c.Timing && c.MagicCopy {
+		return "timing-magic-copy"
+	}
 	if c.Timing {
 		return "timing"
 	}
@@ -528,15 +603,21 @@ func (cs *childState) runScenario(sc scenario, r *vlib.PRNG) {
 		ctxs[t] = d.Init()
 	}
 	runs := make([]*queueRun, len(sc.Queues))
-	for qi, qp := range sc.Queues {
-		ctx := ctxs[qp.Thread]
-		d.SelectGPU(ctx, qp.GPU)
-		qr := &queueRun{plan: qp, ctx: ctx, exp: make([]uint32, qp.N)}
-		qr.guardL = d.AllocateMemory(ctx, 64)
-		qr.buf = d.AllocateMemory(ctx, uint64(4*qp.N))
-		qr.guardR = d.AllocateMemory(ctx, 64)
-		qr.q = d.CreateCommandQueue(ctx)
-		runs[qi] = qr
+	cs.runs, cs.lay = runs, nil
+	if sc.Layout != nil {
+		// sub-range commands on physically scattered buffers (layout.go)
+		cs.allocLayout(&sc, ctxs, runs)
+	} else {
+		for qi, qp := range sc.Queues {
+			ctx := ctxs[qp.Thread]
+			d.SelectGPU(ctx, qp.GPU)
+			qr := &queueRun{plan: qp, ctx: ctx, exp: make([]uint32, qp.N)}
+			qr.guardL = d.AllocateMemory(ctx, 64)
+			qr.buf = d.AllocateMemory(ctx, uint64(4*qp.N))
+			qr.guardR = d.AllocateMemory(ctx, 64)
+			qr.q = d.CreateCommandQueue(ctx)
+			runs[qi] = qr
+		}
 	}
 	var wg sync.WaitGroup
 	cs.active.Store(int64(sc.Threads))
@@ -594,6 +675,9 @@ func (cs *childState) runScenario(sc scenario, r *vlib.PRNG) {
 	}
 	_ = extra
 	wg.Wait()
+	if sc.Layout != nil {
+		cs.checkBystanders(&sc)
+	}
 	cs.rec.Eval()
 	cs.rec.Count("scenarios", 1)
 	cs.mon.mu.Lock()
@@ -608,7 +692,6 @@ func (cs *childState) runScenario(sc scenario, r *vlib.PRNG) {
 	cs.rec.Distinct("shape", fmt.Sprintf("t%d-q%d-two%v-%s-g%d", sc.Threads, len(sc.Queues), sc.TwoDrain, platClass(cs.p.Cfg), cs.p.Cfg.NumGPUs))
 }
 
-
 func childMain() {
 	// args: child seed batch nscen timing ngpu mode
 	a := os.Args[1:]
@@ -618,6 +701,23 @@ func childMain() {
 	timing, _ := strconv.ParseBool(a[4])
 	ngpu, _ := strconv.Atoi(a[5])
 	mode := a[6]
+	// optional flavour flags: buddy (buddy allocator), magic (timing platform
+	// with magic memory copy: copy-only layout scenarios), layout=<k> (every
+	// k-th scenario of the batch is a layout scenario), canon-layout
+	flavour := map[string]string{}
+	if len(a) > 7 {
+		for _, f := range strings.Split(a[7], ",") {
+			if f == "" {
+				continue
+			}
+			k, v, _ := strings.Cut(f, "=")
+			flavour[k] = v
+		}
+	}
+	_, buddy := flavour["buddy"]
+	_, magic := flavour["magic"]
+	_, canonLayout := flavour["canon-layout"]
+	layoutEvery, _ := strconv.Atoi(flavour["layout"])
 
 	rec := vlib.ChildRec()
 	rng := vlib.NewPRNG(uint64(seed)).ForkN("c12-batch", batch)
@@ -625,8 +725,9 @@ func childMain() {
 	mon.resetSignature()
 	driver.VerifSetYieldHook(mon.hook)
 
-	p := plat.Build(plat.Config{Timing: timing, NumGPUs: ngpu})
-	cs := &childState{rec: rec, mon: mon, p: p, d: p.Driver, waitingQ: map[int]*driver.CommandQueue{}}
+	driver.VerifUseBuddyAllocator(buddy)
+	p := plat.Build(plat.Config{Timing: timing, NumGPUs: ngpu, MagicCopy: magic})
+	cs := &childState{rec: rec, mon: mon, p: p, d: p.Driver, waitingQ: map[int]*driver.CommandQueue{}, blockedAPI: map[int]bool{}}
 	for i := range cs.sharedCO {
 		cs.sharedCO[i] = kern.ElemKernel(kern.Op(i))
 	}
@@ -675,6 +776,17 @@ func childMain() {
 		}
 		rec.Note("canon_ok", ok)
 		rec.Eval()
+	} else if canonLayout {
+		// seed-independent layout battery of this platform
+		fixed := vlib.NewPRNG(0xC12)
+		for s, sc := range canonLayoutScenarios(ngpu, timing, magic, buddy) {
+			t0 := time.Now()
+			cs.runScenario(sc, fixed.ForkN("run", s))
+			rec.Count("canonical_layout_scenarios", 1)
+			if os.Getenv("C12_TIMES") != "" {
+				fmt.Fprintf(os.Stderr, "C12_TIMES %s %.2fs\n", sc.ID, time.Since(t0).Seconds())
+			}
+		}
 	} else if nscen < 0 {
 		// plain loop of blocking 64-byte copies from one goroutine
 		iters := -nscen
@@ -708,11 +820,22 @@ func childMain() {
 		rec.Eval()
 	} else {
 		for s := 0; s < nscen; s++ {
-			sc := genScenario(rng.ForkN("scenario", s), fmt.Sprintf("b%d-s%d", batch, s), ngpu, timing)
-			if batch == 0 && s == 0 {
+			var sc scenario
+			if magic || (layoutEvery > 0 && s%layoutEvery == layoutEvery-1) {
+				// magic copy on the timing platform reads DRAM behind dirty
+				// caches (open finding filed under C02): copy-only programs there
+				sc = genLayoutScenario(rng.ForkN("layout-scenario", s), fmt.Sprintf("b%d-s%d-layout", batch, s), ngpu, timing, magic, buddy)
+			} else {
+				sc = genScenario(rng.ForkN("scenario", s), fmt.Sprintf("b%d-s%d", batch, s), ngpu, timing)
+			}
+			if batch == 0 && (s == 0 || s == layoutEvery-1) {
 				rec.Sample(sc)
 			}
+			t0 := time.Now()
 			cs.runScenario(sc, rng.ForkN("run", s))
+			if os.Getenv("C12_TIMES") != "" { // development aid, no effect on any verdict
+				fmt.Fprintf(os.Stderr, "C12_TIMES %s %.2fs\n", sc.ID, time.Since(t0).Seconds())
+			}
 		}
 	}
 	close(stop)
